@@ -20,7 +20,7 @@ Ed25519 (`sigOkUnder` is an oracle bit per key), f64 rounding of a float-valued 
 Core-only: linked into `drv_token`.
 -/
 namespace ScionVerif.Token
-open ScionVerif.Generated.Token (FieldTy)
+open ScionVerif.Generated.Token (FieldTy expUnitNs)
 
 abbrev KeyId := Nat
 
@@ -395,11 +395,16 @@ inductive Grant
 
 def i64Max : Nat := 2 ^ 63 - 1
 
-/-- `register_snaptun_identity_handler`: `snap_token.exp_time().duration_since(SystemTime::now())`,
-times in nanoseconds since the epoch -/
+/-- `register_snaptun_identity_handler` (snap-control `api/crpc.rs`), the value handed to
+`SnapTunIdentityRegistry::register` as `lifetime`: `snap_token.exp_time().duration_since(SystemTime::now())`
+with `exp_time() = UNIX_EPOCH + exp · expUnitNs ns`; `nowNs` = the handler's `SystemTime::now()` in
+nanoseconds since the epoch.  Which statements compute and pass the value is re-extracted on every run
+(`handlerLifetimeIsExpMinusNow`, `handlerRefusesPastExpiryBeforeRegister`, `handlerRegisterCalls`,
+`expUnitNs` in `Generated/Token.lean`; any other shape of the handler is an extraction error); the
+function itself is compared with the real handler by `hx_token` on every accepted token. -/
 def lifetime (exp : Nat) (nowNs : Nat) : Grant :=
   if i64Max < exp then .panic
-  else if nowNs ≤ exp * 1000000000 then .granted (exp * 1000000000 - nowNs)
+  else if nowNs ≤ exp * expUnitNs then .granted (exp * expUnitNs - nowNs)
   else .past
 
 end ScionVerif.Token
